@@ -27,12 +27,14 @@ type Prog struct {
 	Root   *packages.Package
 	SSA    *ssa.Program
 	RPC    *ssa.Package
-	Fns    []*ssa.Function // every source function of package rpc, closures included
+	Fns    []*ssa.Function // the source functions of package rpc the rules iterate over: closures included, plain helpers (read as in-line code of their callers) excluded
+	AllFns []*ssa.Function // every source function of package rpc (engines)
 	byName map[string]*ssa.Function
 	// static call sites inside package rpc, keyed by callee
 	callers map[*ssa.Function][]ssa.CallInstruction
 	// uses of a function (or of a closure made from it) as a value
 	valueUse  map[*ssa.Function]bool // function used as a value (method value, func value, go/defer target excluded)
+	localFunc map[*ssa.Function]bool // closure bound to a local variable and only ever called through it (`helper := func(…){…}; helper(x)`)
 	idx       map[ssa.Instruction]int
 	NumPkgs   int
 	AllFuncs  int
@@ -147,6 +149,7 @@ func (p *Prog) index() {
 		}
 		return fname(p.Fns[i]) < fname(p.Fns[j])
 	})
+	p.AllFns = p.Fns
 	p.Roles = p.resolveRoles()
 	for _, fn := range p.Fns {
 		p.byName[fname(fn)] = fn
@@ -189,6 +192,22 @@ func (p *Prog) index() {
 			}
 		}
 	}
+	p.AllFns = p.Fns
+	theProg = p
+	p.findLocalFuncs()
+	var rules []*ssa.Function
+	for _, fn := range p.AllFns {
+		excluded := false
+		for f := fn; f != nil; f = f.Parent() {
+			if p.isPlainHelper(f) {
+				excluded = true
+			}
+		}
+		if !excluded {
+			rules = append(rules, fn)
+		}
+	}
+	p.Fns = rules
 }
 
 // Fn returns the function with the given short name, or nil.
@@ -388,7 +407,7 @@ func eachInstr(fn *ssa.Function, f func(ssa.Instruction)) {
 					continue
 				}
 				if c, ok := in.(*ssa.Call); ok {
-					if h := c.Common().StaticCallee(); h != nil && !seen[h] && theProg.isPlainHelper(h) {
+					if h := theProg.calleeOf(c); h != nil && !seen[h] && theProg.isPlainHelper(h) {
 						seen[h] = true
 						visit(h, depth+1)
 					}
@@ -454,6 +473,9 @@ func unwrap(v ssa.Value) ssa.Value {
 // statically from package rpc (never used as a value): an extract-function refactoring
 // produces exactly such functions, and all their callers are known.
 func (p *Prog) isHelper(fn *ssa.Function) bool {
+	if fn != nil && p.localFunc[fn] {
+		return len(p.callers[fn]) > 0
+	}
 	if fn == nil || fn.Pkg != p.RPC || fn.Blocks == nil || fn.Parent() != nil || fn.Synthetic != "" {
 		return false
 	}
@@ -519,4 +541,144 @@ func (p *Prog) sameFn(a, b *ssa.Function) bool {
 		}
 	}
 	return false
+}
+
+// eachInstrCtx is eachInstr with context: for an instruction inside a plain helper, `at` is the
+// call in fn through which it is reached and res maps the helper's parameters to the arguments
+// passed on that call chain (so that values can be compared in fn's own terms even when the
+// helper has several call sites).
+func eachInstrCtx(fn *ssa.Function, f func(in, at ssa.Instruction, res func(ssa.Value) ssa.Value)) {
+	ident := func(v ssa.Value) ssa.Value { return v }
+	var visit func(g *ssa.Function, depth int, at ssa.Instruction, res func(ssa.Value) ssa.Value, stack map[*ssa.Function]bool)
+	visit = func(g *ssa.Function, depth int, at ssa.Instruction, res func(ssa.Value) ssa.Value, stack map[*ssa.Function]bool) {
+		for _, b := range g.Blocks {
+			for _, in := range b.Instrs {
+				if _, isRet := in.(*ssa.Return); isRet && depth > 0 {
+					continue
+				}
+				a := at
+				if depth == 0 {
+					a = in
+				}
+				f(in, a, res)
+				if theProg == nil || depth >= 3 {
+					continue
+				}
+				c, ok := in.(ssa.CallInstruction) // plain, go and defer calls alike
+				if !ok {
+					continue
+				}
+				h := theProg.calleeOf(c)
+				if h == nil || stack[h] || !theProg.isPlainHelper(h) {
+					continue
+				}
+				args := c.Common().Args
+				outer := res
+				inner := func(v ssa.Value) ssa.Value {
+					if prm, ok := v.(*ssa.Parameter); ok && prm.Parent() == h {
+						for i, q := range h.Params {
+							if q == prm && i < len(args) {
+								return outer(args[i])
+							}
+						}
+					}
+					return outer(v)
+				}
+				stack[h] = true
+				visit(h, depth+1, a, inner, stack)
+				delete(stack, h)
+			}
+		}
+	}
+	visit(fn, 0, nil, ident, map[*ssa.Function]bool{fn: true})
+}
+
+// findLocalFuncs recognises local functions: a closure whose only uses are being stored into
+// one local variable and being called through that variable (or directly). Its calls are
+// entered into the call-site table, so that it is treated like any other plain helper.
+func (p *Prog) findLocalFuncs() {
+	p.localFunc = map[*ssa.Function]bool{}
+	for _, fn := range p.AllFns {
+		eachInstrLocal(fn, func(in ssa.Instruction) {
+			mc, ok := in.(*ssa.MakeClosure)
+			if !ok || mc.Referrers() == nil {
+				return
+			}
+			cl, ok := mc.Fn.(*ssa.Function)
+			if !ok || cl.Synthetic != "" {
+				return
+			}
+			var calls []ssa.CallInstruction
+			okAll := true
+			nStore := 0
+			for _, r := range *mc.Referrers() {
+				switch u := r.(type) {
+				case *ssa.Call:
+					if u.Common().Value == ssa.Value(mc) {
+						calls = append(calls, u)
+					} else {
+						okAll = false
+					}
+				case *ssa.Store:
+					cell := p.localCell(u.Addr)
+					if cell == nil || u.Val != ssa.Value(mc) || len(p.storesToCell(cell)) != 1 {
+						okAll = false
+						continue
+					}
+					nStore++
+					// every load of the cell (in the whole family) is the operand of a call
+					for _, f := range withClosuresLocal(topParent(fn)) {
+						eachInstrLocal(f, func(x ssa.Instruction) {
+							ld, isLd := x.(*ssa.UnOp)
+							if !isLd || ld.Op != token.MUL || p.localCell(ld.X) != cell || ld.Referrers() == nil {
+								return
+							}
+							for _, lr := range *ld.Referrers() {
+								if c, isC := lr.(*ssa.Call); isC && c.Common().Value == ssa.Value(ld) {
+									calls = append(calls, c)
+								} else if _, isDbg := lr.(*ssa.DebugRef); !isDbg {
+									okAll = false
+								}
+							}
+						})
+					}
+				case *ssa.DebugRef:
+				default:
+					okAll = false
+				}
+			}
+			if !okAll || nStore == 0 || len(calls) == 0 {
+				return
+			}
+			p.localFunc[cl] = true
+			for _, c := range calls {
+				p.callers[cl] = append(p.callers[cl], c)
+			}
+		})
+	}
+}
+
+func withClosuresLocal(fn *ssa.Function) []*ssa.Function {
+	out := []*ssa.Function{fn}
+	for _, a := range fn.AnonFuncs {
+		out = append(out, withClosuresLocal(a)...)
+	}
+	return out
+}
+
+// calleeOf resolves the function a call instruction enters: the static callee, or the local
+// function bound to the variable the call goes through.
+func (p *Prog) calleeOf(c ssa.CallInstruction) *ssa.Function {
+	if g := c.Common().StaticCallee(); g != nil {
+		return g
+	}
+	if c.Common().IsInvoke() {
+		return nil
+	}
+	if mc, ok := p.canon(c.Common().Value).(*ssa.MakeClosure); ok {
+		if g, ok := mc.Fn.(*ssa.Function); ok && p.localFunc[g] {
+			return g
+		}
+	}
+	return nil
 }
